@@ -84,7 +84,8 @@ def gen_case(rng: random.Random):
     # from_series trims NaNs on the outer edges of the feed by design: keep the first and last readings present
     missing.discard(0)
     missing.discard(n - 1)
-    return dict(tz=tz, feed_tz=feed_tz, step=step, start=start.isoformat(), ndays=ndays, meter_hour=meter_hour, meter_kind=meter_kind,
+    return dict(zero_usage=(meter_kind != "billing" and rng.random() < 0.35),
+                tz=tz, feed_tz=feed_tz, step=step, start=start.isoformat(), ndays=ndays, meter_hour=meter_hour, meter_kind=meter_kind,
                 values=[str(v) for v in vals], missing=sorted(missing), cls=rng.choice(["baseline", "reporting"]),
                 entry=rng.choice(["from_series", "from_series", "frame"]))
 
@@ -104,6 +105,9 @@ def dst_cases():
                 vals = [str(Fraction(40 * 4 + (j * 7) % 160, 4)) for j in range(n)]
                 out.append(dict(tz=tz, feed_tz="UTC", step=60, start=tidx[0].isoformat(), ndays=ndays, meter_hour=0, meter_kind=kind,
                                 values=vals, missing=js[1::2][:k] if 2 * k <= tot else js[1:1 + k], cls="baseline", entry="from_series"))
+                if kind != "billing" and extra == 0:
+                    # the same case with zero-usage days / hours on the (electricity) meter
+                    out.append(dict(out[-1], zero_usage=True, entry="frame" if kind == "subdaily" else "from_series"))
     return out
 
 
@@ -124,8 +128,15 @@ def build(case):
     if mk == "daily":
         midx = pd.date_range(start + pd.Timedelta(hours=case["meter_hour"]), periods=case["ndays"] - (1 if case["meter_hour"] else 0), freq="D")
         meter = pd.Series(np.arange(len(midx)) % 7 + 10.0, index=midx, name="observed")
+        if case.get("zero_usage"):
+            # vacancy / outage days: the (electricity) meter reads exactly 0; the weather of those days is what it is
+            # (few enough that the remaining reads are still recognisably daily: short series get one zero day)
+            zs = (3,) if len(midx) < 20 else (2, 3, len(midx) // 2)
+            meter.iloc[[k for k in zs if 0 < k < len(midx) - 1]] = 0.0
     elif mk == "subdaily":
         meter = pd.Series(1.0 + (np.arange(n) % 5), index=tidx, name="observed")
+        if case.get("zero_usage"):
+            meter.iloc[[k for k in range(5, n - 1, 7)]] = 0.0
     else:
         midx = pd.DatetimeIndex([start, start + pd.Timedelta(days=case["ndays"] // 2), (start.tz_localize(None) + pd.Timedelta(days=case["ndays"] - 1)).tz_localize(tz)])
         midx = pd.DatetimeIndex([(start.tz_localize(None) + pd.Timedelta(days=k)).tz_localize(tz) for k in (0, case["ndays"] // 2, case["ndays"] - 1)])
